@@ -220,6 +220,7 @@ theorem deepCopySlot_id (S : Schema) (f : FieldD) : ∀ (v : Val), SlotOk S f v 
     | subs _ c _ hf hr hm => rw [deepCopyMsgs_id S c xs hm]
     | tss _ _ hf hv => rw [deepCopyList_atoms S xs (fun x hx => timeValOk_atom _ x (hv x hx))]
     | durs _ _ hf hv => rw [deepCopyList_atoms S xs (fun x hx => timeValOk_atom _ x (hv x hx))]
+    | wraps _ w _ hf hv => rw [deepCopyList_atoms S xs (fun x hx => scalarOk_atom _ x (hv x hx))]
   | .dict ks vs, h => by
     rw [deepCopy]
     cases h with
